@@ -10,4 +10,6 @@ fi
 cd /verif && ./check.sh "$ID" quick "$@" 2>&1 | grep -E "^(SUMMARY|VIOLATION|KNOWN|ENCODER|TRANSLATOR|INCONCLUSIVE|  violated)" | cut -c1-300
 rc=${PIPESTATUS[0]}
 git -C /repo checkout -- . 
+# the evidence file was rewritten from the patched tree: put the committed one (unchanged tree) back
+git -C /verif checkout -- "evidence/$ID.json" 2>/dev/null
 echo "exit=$rc"
